@@ -110,12 +110,27 @@ def karray(v):
     raise ValueError(v)
 KVARS = ["K0", "K1", "K2", "K3", "K4", "K5", "K6", "K7", "K8", "K9", "KN"]
 
+# scalar defaults of same-named operators `os` that are hash-colliding or ==-equal without being identical
+def sval(v):
+    import numpy as np
+    return {"S0": -1, "S1": -2,                    # CPython: hash(-1) == hash(-2) == -2
+            "S2": -1.0, "S3": -2.0,                # ... also for floats
+            "S4": 0.0, "S5": -0.0,                 # == but not identical (the value pipeline drops the sign of a scalar zero anyway)
+            "S6": 1, "S7": 1.0, "S8": True,        # 1 == 1.0 == True, one hash
+            "S9": 0, "S10": 2.0 ** 61,             # hash modulus 2^61-1: hash(2.0**61) == 1 == hash(1.0)
+            "S11": 0.1, "S12": np.float64(0.1),    # numpy scalar vs Python scalar of equal value
+            "S13": "1",                            # string '1' vs 1
+            "S14": 2.0 ** 61 - 2.0 ** 9}[v]        # hash(2^61 - 512) == hash(-511.0)... another residue class
+SVARS = ["S%d" % i for i in range(15)]
+
 def kbuild(variants):
     """one node per variant (A, B), each with its OWN OperatorTemplate object named `oc`"""
     from pyrates import OperatorTemplate, NodeTemplate, CircuitTemplate
     nd = {}
     for lab, v in zip("AB", variants):
-        if v == "KN":     # right-hand side that is a bare number: ExpressionParser's dummy-constant path
+        if v.startswith("S"):
+            op = OperatorTemplate(name="os", path=None, equations=["d/dt * x = -k*x"], variables={'x': 'output(0.5)', 'k': sval(v)})
+        elif v == "KN":     # right-hand side that is a bare number: ExpressionParser's dummy-constant path
             op = OperatorTemplate(name="oc", path=None, equations=["d/dt * x = 0.5"], variables={'x': 'output(0.5)'})
         else:
             a = karray(v)
@@ -131,6 +146,16 @@ def kecho(variants, o, raw):
     import numpy as np
     from pyr import frac
     names, dy = o["names"], o["dy"]
+    if variants[0].startswith("S"):      # scalar defaults: the argument k is the declared number, dy = -k*x
+        kargs = [r for n, r in zip(names, raw) if n.endswith("/os/k")]
+        if len(kargs) != len(variants) or len(dy) != len(variants):
+            return False
+        for i, (got, v) in enumerate(zip(kargs, variants)):
+            k = float(sval(v))
+            g = np.asarray(got, dtype=np.float64).reshape(-1)
+            if g.shape != (1,) or g[0] != k or Fr(dy[i]) != -Fr(k) * Fr(i + 1, 4):
+                return False
+        return True
     cargs = [r for n, r in zip(names, raw) if n.endswith("/oc/c")]
     want = [v for v in variants if v != "KN"]
     if len(cargs) != len(want) or len(dy) != len(variants):
@@ -400,22 +425,26 @@ def is_jax(case):
     return any(o[0] in ("jcompile", "jrun") for o in case["hist"] + [case["final"]])
 
 KPAIRS = [("K0", "K1"), ("K2", "K3"), ("K2", "K4"), ("K0", "K5"), ("K6", "K7"), ("K9", "K8"), ("K2", "KN")]
+SPAIRS = [("S0", "S1"), ("S2", "S3"), ("S4", "S5"), ("S6", "S7"), ("S6", "S8"), ("S7", "S10"), ("S9", "S4"), ("S11", "S12"), ("S13", "S6"),
+          ("S0", "S2"), ("S10", "S14")]
 def gen_consts_case(rng):
     """same-named operators with subtly different array constants, mostly WITHOUT a clear in between; judged by the echo oracle"""
-    a, b = rng.choice(KPAIRS)
+    a, b = rng.choice(KPAIRS + SPAIRS)
     if rng.random() < 0.5:
         a, b = b, a
+    fam = SVARS if a.startswith("S") else KVARS
     def K(vs, clr=False):
         return ["kcompile", vs, False, clr, rng.random() < 0.3, rng.random() < 0.8]
     hist = [K([a], rng.random() < 0.25)]
     if rng.random() < 0.3:
-        hist.append(rng.choice([["cfc", True, False], ["cfc", False, True], ["mclear", 0], K([rng.choice(KVARS)])]))
+        hist.append(rng.choice([["cfc", True, False], ["cfc", False, True], ["mclear", 0], K([rng.choice(fam)])]))
     final = K([b]) if rng.random() < 0.7 else K([b, a])
     return dict(hist=hist, final=final)
 
 def consts_directed():
     K = lambda vs, clr=False, tf=True: ["kcompile", vs, False, clr, False, tf]
-    return [dict(hist=[K([a])], final=K([b])) for a, b in KPAIRS] + [dict(hist=[], final=K([a, b])) for a, b in KPAIRS[:4]] + \
+    return [dict(hist=[K([a])], final=K([b])) for a, b in KPAIRS + SPAIRS] + [dict(hist=[], final=K([a, b])) for a, b in KPAIRS[:4] + SPAIRS[:3]] + \
+           [dict(hist=[K(["S1"])], final=K(["S0"])), dict(hist=[K(["S3"]), K(["S1"])], final=K(["S2", "S0"]))] + \
            [dict(hist=[K(["K0"], True)], final=K(["K1"], False, False))]
 
 JMODELS = ["M0", "M2", "M8"]
@@ -725,7 +754,8 @@ def check(ctx):
                         "function text, different helper definitions) and compilations with one decorator and different decorator_kwargs; plus an inputs= "
                         "stream (extrinsic input on a same-named variable, one-flag clear_frontend_caches calls; guard from the model's counters); a constants stream "
                         "(same-named operators whose array constants differ only in the middle of a >1000-element array, beyond the 8th digit, in dtype, in length, in "
-                        "the sign of zero; mostly WITHOUT clearing; oracle: every function gets its own operators' constants bit for bit); a jax stream (float64/float32, "
+                        "the sign of zero, and whose scalar defaults are hash-colliding or ==-equal without being identical (-1/-2, 0.0/-0.0, 1/1.0/True, 2^61 residues, "
+                        "numpy vs Python scalar, '1' vs 1); mostly WITHOUT clearing; oracle: every function gets its own operators' constants bit for bit); a jax stream (float64/float32, "
                         "other parameter values, get_run_func and run, vs fresh interpreters); non-trivial = the history contains >= 1 earlier compilation (it shares the file name and the node label `A`, mostly also "
                         "the operator name or the structural class, with the final model); distinct = distinct canonical JSON",
                    samples=[c for c in cases if overlap(c)][:3], extra=dict(fixed_clear=fixed_clear(), fixed_op_cache_key=fixed_op_cache_key(), fixed_yaml_copy=fixed_yaml_copy(), fixed_D29=fixed_D29(), input_distribution=dict(hist, ops_stream=sum(1 for c in cases if is_ops(c)), inputs_stream=sum(1 for c in cases if is_inputs(c)),
